@@ -145,7 +145,9 @@ def install_contract(eng):
         st.log.append(('deflate', flush, ain, c, p))
         advance(st, strm, z, nin, ain, nout, aout, c, p, 'deflated')
         z['flush'] = flush
-        return Z_STREAM_END if flush == Z_FINISH and not z['pending'] else Z_OK
+        if flush == Z_FINISH and not z['pending']:
+            z['finished'] = True; return Z_STREAM_END
+        return Z_OK
     def m_deflate_end(st, a):
         zs(st)['ended'] = True; return Z_OK
     M['inflateInit_'] = m_inflate_init; M['inflate'] = m_inflate; M['inflateEnd'] = m_inflate_end
@@ -169,3 +171,4 @@ def install_contract(eng):
         if not z['ended']: raise E.Bug('assert', 'inflateEnd/deflateEnd not called on a successful return (leak)', eng._m(st))
         return z['consumed']
     M['verif_zlib_check'] = v_check
+    M['verif_zlib_finished'] = lambda st, a: 1 if zs(st).get('finished') else 0
